@@ -232,7 +232,7 @@ var recDeep = ev.New("TestPropDeepDocumentsRoundTrip", "well-formed documents ne
 func TestPropDeepDocumentsRoundTrip(t *testing.T) {
 	ctx := context.Background()
 	pool := keys.Pool()
-	ev.Check(t, 1600, 40000, func(t *rapid.T) {
+	ev.Check(t, 1600, 6000, func(t *rapid.T) {
 		dd := doc.GenDeep(t)
 		kp := pool[rapid.IntRange(0, 1).Draw(t, "fast")]
 		p, err := pipeline.Parse(bytes.NewReader(dd.Text))
